@@ -6,8 +6,8 @@
 import glob, json, os, re, shutil, subprocess, sys
 d, name = os.path.abspath(sys.argv[1]), sys.argv[2]
 SLOT = os.environ.get("CONFIRM_SLOT", "")   # several confirmations may run side by side, one slot each
-WT = "/tmp/confirm-wt" + SLOT
-TARGET = "/tmp/confirm-target" + SLOT
+WT = os.environ.get("CONFIRM_WT", "/tmp/confirm-wt" + SLOT)           # e.g. the worktree the change was written in (warm target dir)
+TARGET = os.environ.get("CONFIRM_TARGET", "/tmp/confirm-target" + SLOT)
 env = dict(os.environ, CARGO_NET_OFFLINE="true", CARGO_TARGET_DIR=TARGET)
 def sh(cmd, cwd=WT, timeout=3600):
     p = subprocess.run(cmd, cwd=cwd, env=env, shell=isinstance(cmd, str), capture_output=True, text=True, timeout=timeout)
